@@ -159,7 +159,7 @@ func checkC05(c *Ctx) {
 				case ev.Phase >= 0 && ev.Variant == "late" && isCancelled(res.After):
 					// the expired-deadline path: the round is cancelled, nothing is counted as a contribution
 				case ev.Phase >= 0:
-					if ev.Variant == "empty" {
+					if ev.Variant == "empty" || ev.Variant == "emptyfield" {
 						c.Violate("C05/M1-malformed-contribution-accepted", ev.Label+" in "+res.Before, wit())
 					}
 					if !ev.Known {
